@@ -56,9 +56,9 @@ ASSUMPTIONS = ["a 32-bit tag is forgeable with probability 2^-32 per candidate: 
                "would have produced; the key in the cache entry at the start belongs to the first identity; a pairing loaded with new pairing data although nothing ever removed the previous identity's cache entry "
                "inherits that entry's key without a verdict (counted as top/load/inherits-entry-of-other-identity-never-removed); pairing objects the application has replaced or removed are judged on listener calls "
                "only, against every number they may have had; numbers a session may or may not have told the pairing are additional candidates; what remove_pairing raises is recorded (top/remove/*), not judged; "
-               "with an AccessoryPairingID that is NOT lower case the unchanged library does not take a removed pairing out of the BLE controller's routing table (it pops the id as given from tables keyed by the "
-               "lower-case id), and the removed, shut-down pairing re-creates its cache entry - broadcast key included - when the next regular advertisement carries a new state number: such histories are run as "
-               "probes, their findings go to the notes (top (probe ...)) and the distribution (top/probe/*), not to the verdict"]
+               "histories also run under an AccessoryPairingID that is NOT lower case (the form pair-setup returns): on the unchanged tree Controller.remove_pairing popped the id as given from tables keyed by the "
+               "lower-case id, the removed, shut-down pairing stayed in the BLE controller's routing table and re-created its cache entry - broadcast key included - at the next regular advertisement with a new "
+               "state number (repaired in /repo, see known_findings.json; gated since)"]
 EXPLANATION = "Lean theorems C18_* over the candidate-window automaton with a symbolic partial-tag AEAD (accept => authentic+fresh, reject => unchanged, no replay over histories, value decoding); differential tie through BleController._device_detected"
 
 KEY = bytes(range(32))
@@ -2399,7 +2399,7 @@ def top_stream(ctx):
     from harness.simnet import VLoop
     rng = ctx.rng
     directed = top_directed(ctx)
-    # the same histories under an AccessoryPairingID that is not lower case (probes, see ASSUMPTIONS)
+    # the same histories under an AccessoryPairingID that is not lower case (see ASSUMPTIONS)
     upper = [dict(c, lower=False, label=c["label"] + "/upper") for c in directed[ctx.seed % 5::5]]
     cases = directed + upper + [gen_top_history(rng, ctx.thorough()) for _ in range(ctx.budget(60, 800))]
     loop = VLoop()
@@ -2423,11 +2423,9 @@ def top_stream(ctx):
                 if sig in seen:
                     continue
                 seen.add(sig)
-                if case.get("lower", True):
-                    ctx.violation(sig, what, dict(case, events=case["events"][:idx + 1]))
-                else:
-                    ctx.dist["top/probe/" + sig] += 1
-                    probes.setdefault(sig, what)
+                # (histories under an id that is not lower case were probes until the defect they showed on the unchanged tree -
+                # Controller.remove_pairing popped the id as given from tables keyed by the lower-case id - was repaired in /repo)
+                ctx.violation(sig, what, dict(case, events=case["events"][:idx + 1]))
     finally:
         loop.close()
     ctx.sample({k: (v if len(str(v)) < 900 else str(v)[:900] + "...") for k, v in cases[3].items()})
